@@ -35,6 +35,7 @@ def mk_chunks(body, chunk_size=512):
 
 
 CR_LF = b'\r\n'
+HEX_DIGITS = b'0123456789abcdefABCDEF'
 
 
 class HTTPReader:
@@ -55,20 +56,25 @@ class HTTPReader:
         body = []
         while True:
             chunk_header = cls._read_until(stream, CR_LF)
-            chunk_headers = chunk_header.split(b';')  # length + optional chunk-extensions (name=value pairs)
-            chunk_len, _ = chunk_headers[0], chunk_headers[1:]  # we do nothing with chunk-extensions...
-            if chunk_len is None:
+            if chunk_header is None:
                 raise DechunkError(
                     'Could not extract chunk size: unexpected end of data.')
-
+            chunk_headers = chunk_header.split(b';')  # length + optional chunk-extensions (name=value pairs)
+            chunk_len, _ = chunk_headers[0], chunk_headers[1:]  # we do nothing with chunk-extensions...
+            chunk_len = chunk_len.strip()
+            if not chunk_len or any(c not in HEX_DIGITS for c in chunk_len):
+                # chunk-size = 1*HEXDIG; int() would also accept a sign, '0x' and '_'
+                raise DechunkError(f'Could not parse chunk size: {chunk_len!r}')
             try:
-                chunk_len = int(chunk_len.strip(), 16)
+                chunk_len = int(chunk_len, 16)
             except (ValueError, TypeError) as err:
                 raise DechunkError('Could not parse chunk size:') from err
 
             bytes_to_read = chunk_len
             while bytes_to_read:
                 chunk = stream.read(bytes_to_read)
+                if not chunk:
+                    raise DechunkError('unexpected end of data inside a chunk.')
                 bytes_to_read -= len(chunk)
                 body.append(chunk)
 
@@ -118,6 +124,8 @@ class HTTPReader:
             if cl_string:
                 try:
                     content_length = int(cl_string)
+                    if content_length < 0:
+                        raise ValueError(f'invalid content-length {cl_string!r}')
                     http_body = http_message.rfile.read(content_length)
                 except TypeError:
                     http_body = http_message.rfile.read()
